@@ -9,11 +9,16 @@
 package main
 
 import (
+	"context"
 	"fmt"
+	"sort"
+	"time"
 
 	"verifharness/internal/hx"
 	"verifharness/internal/kvx"
 	"verifharness/internal/prng"
+
+	"github.com/acquirecloud/golibs/kvs/inmem"
 )
 
 type Case struct {
@@ -37,13 +42,81 @@ func runCase(c Case, s *hx.Sink) string {
 		if c.Be != "both" && c.Be != b.Name {
 			continue
 		}
-		obs := b.RunCase(c.Ops, s.Count)
+		obs := runOps(b, c.Ops, s.Count)
 		terms = append(terms, fmt.Sprintf("mkCase %s %s %s %s", hx.N(c.ID), b.CoqBackend(), hx.Z(tolNs), kvx.CoqObsList(obs)))
 	}
 	res := terms[0]
 	for _, t := range terms[1:] {
 		res += ";\n" + t
 	}
+	return res
+}
+
+// runOps is kvx.RunCase plus the step W2 (in-memory store only): two concurrent WaitForVersionChange calls
+// on one key. The first (context deadline D ms) is registered in the waiter table before the second
+// (deadline D2 ms) starts - read through the hook inmem.VerifWaiters -, and it leaves when its context
+// ends. Both calls become XWait observations, in the order in which they returned, each judged at the
+// instant it returned.
+func runOps(b *kvx.Backend, ops []kvx.Op, count func(string)) []kvx.Obs {
+	b.Reset()
+	var res []kvx.Obs
+	for _, o := range ops {
+		count(b.Name + ":op:" + o.K)
+		if o.K == "W2" {
+			if b.MR == nil {
+				for _, x := range execWait2(b, o) {
+					count(b.Name + ":out:W2:" + x.Class)
+					res = append(res, x)
+				}
+			}
+			continue
+		}
+		if obs, ok := b.Exec(o); ok {
+			count(b.Name + ":out:" + o.K + ":" + obs.Class)
+			res = append(res, obs)
+		}
+	}
+	return res
+}
+
+func execWait2(b *kvx.Backend, o kvx.Op) []kvx.Obs {
+	now := func() int64 { return int64(time.Since(b.T0) + b.FF) }
+	ver := b.Version(o.Key, o.Ver)
+	coqOp := fmt.Sprintf("XWait %s %s", hx.Str(o.Key), hx.Nat(b.ID(ver)))
+	done := make(chan kvx.Obs, 2)
+	start := func(ms int64) {
+		go func() {
+			x := kvx.Obs{Skew: int64(b.FF), CoqOp: coqOp, T0: now()}
+			func() {
+				defer func() {
+					if r := recover(); r != nil {
+						x.Class = "OOther"
+					}
+				}()
+				ctx, cancel := context.WithTimeout(context.Background(), time.Duration(ms)*time.Millisecond)
+				defer cancel()
+				x.Class = kvx.Class(b.S.WaitForVersionChange(ctx, o.Key, ver))
+			}()
+			x.T1 = now()
+			x.CoqOut = x.Class
+			done <- x
+		}()
+	}
+	var res []kvx.Obs
+	start(o.D)
+	// until the first waiter is registered (or has returned already)
+	for i := 0; i < 200 && len(res) == 0 && inmem.VerifWaiters(b.S)[o.Key] < 1; i++ {
+		select {
+		case x := <-done:
+			res = append(res, x)
+		case <-time.After(250 * time.Microsecond):
+		}
+	}
+	start(o.D2)
+	for len(res) < 2 {
+		res = append(res, <-done)
+	}
+	sort.SliceStable(res, func(i, j int) bool { return res[i].T1 < res[j].T1 })
 	return res
 }
 
@@ -97,7 +170,7 @@ func toucher(kind int, key string, r *prng.R, waitMs int64) kvx.Op {
 	case 4:
 		return kvx.Op{K: "N", Recs: []kvx.RecIn{{Key: key, Val: 1}}}
 	case 5:
-		return kvx.Op{K: "S", Key: key, Val: 2, Ver: "cur"}
+		return kvx.Op{K: "S", Key: key, Val: 2, Ver: prng.Pick(r, []string{"cur", "cur", "old", "unk", "empty"})}
 	case 6:
 		return kvx.Op{K: "D", Key: key}
 	case 7:
@@ -158,9 +231,9 @@ func main() {
 		s.Count("stream:" + stream)
 	}
 	thorough := fl.Tier == "thorough"
-	reps := 6
+	reps := 24
 	if thorough {
-		reps = 60
+		reps = 200
 	}
 	idx := uint64(0)
 	// A. both backends, deterministic: the key holds a record that expired an hour ago / expires in an
@@ -187,7 +260,9 @@ func main() {
 	// B. Redis, time moved by FastForward: leases of 1h / 3h / none, the clock advances 2h (twice in the tail)
 	for rep := 0; rep < reps; rep++ {
 		for kind := 0; kind < 9; kind++ {
-			for st, exp := range []string{"1h", "3h", ""} {
+			// the live record is one second from its expiration when the clock has moved (an
+			// implementation that drops records a little early is seen), long expired after the second move
+			for st, exp := range []string{"1h", "2h0m1s", ""} {
 				idx++
 				r := prng.New(fl.Seed, "C06B", idx)
 				var ops []kvx.Op
@@ -208,13 +283,14 @@ func main() {
 	}
 	// C. in-memory store in real time: leases of 30 ms / 10 s / none, a real sleep of 45 ms; a waiter on the
 	//    live 30 ms record is started BEFORE it expires and must end with ErrNotExist when it does
-	repsC := 1
+	repsC := 3
 	if thorough {
-		repsC = 12
+		repsC = 20
 	}
 	for rep := 0; rep < repsC; rep++ {
 		for kind := 0; kind < 9; kind++ {
-			for st, exp := range []string{"30ms", "10s", ""} {
+			live := []string{"10s", "120ms"}[rep%2] // 120 ms: alive when first touched, may expire during the tail
+			for st, exp := range []string{"30ms", live, ""} {
 				idx++
 				r := prng.New(fl.Seed, "C06C", idx)
 				var ops []kvx.Op
@@ -236,10 +312,20 @@ func main() {
 			ops = append(ops, kvx.Op{K: "W", Key: "a", Ver: ver, D: 300}, kvx.Op{K: "G", Key: "a"}, kvx.Op{K: "L", Pat: "*"})
 			emit("inmem", "C:waiter-outlives-record:"+ver, ops)
 		}
+		// two waiters on the 30 ms record: the one that registered first gives up after 8 ms, the other one
+		// must still end with ErrNotExist when the record expires (not with its own 300 ms deadline)
+		for _, d1 := range []int64{8, 300} {
+			idx++
+			r := prng.New(fl.Seed, "C06W2", idx)
+			ops := writeOp(r, "a", "30ms")
+			ops = append(ops, kvx.Op{K: "W2", Key: "a", Ver: "cur", D: d1, D2: 300}, kvx.Op{K: "G", Key: "a"})
+			emit("inmem", fmt.Sprintf("C:two-waiters:first-leaves-after-%dms", d1), ops)
+		}
 	}
 	s.Close("streams: A (both backends) key a holds a record that expired 1h ago / expires in 1h / never, written through Create, Put, PutMany or CasByVersion; "+
-		"B (redis) leases 1h/3h/none and miniredis FastForward 2h; C (inmem, real time) leases 30ms/10s/none and a real sleep of 45 ms. In every stream each of the nine "+
+		"B (redis) leases 1h/2h0m1s/none and miniredis FastForward 2h (the live record is 1 s from its expiration when first touched); C (inmem, real time) leases 30ms/10s or 120ms/none and a real sleep of 45 ms. In every stream each of the nine "+
 		"operation kinds (Create, Get, GetMany, Put, PutMany, CasByVersion, Delete, ListKeys, WaitForVersionChange) is the first to touch key a in each of the three states, "+
-		"followed by a seeded random tail of 1-7 operations; each call's measured interval goes to the model, an expiration within 2 ms of a call is accepted either way. "+
+		"followed by a seeded random tail of 1-7 operations (CasByVersion as first toucher with the current, a stale, an unknown and the empty version); stream C also has a waiter that is parked "+
+		"before its record expires, and two concurrent waiters of which the first registered leaves early; each call's measured interval goes to the model, an expiration within 2 ms of a call is accepted either way. "+
 		"distinct = by content hash; non-trivial = at least 3 operations including a write with an expiration", false)
 }
